@@ -114,6 +114,49 @@ def _hit_test(t):
     return None
 
 
+def _normalise_visit(fnode):
+    """two spellings of the memo brought to the `if key in cache:` form (on a copy):
+      key = node.name; if key in self.c: ...          -> the local replaced by what it is bound to (bound once, to an attribute chain)
+      try: v = self.c[k] / except KeyError: <miss>    -> if k in self.c: v = self.c[k]; <rest>  followed by <miss>"""
+    import copy
+    fn = copy.deepcopy(fnode)
+    stores = {}
+    for n in ast.walk(fn):
+        if isinstance(n, ast.Name) and isinstance(n.ctx, ast.Store):
+            stores[n.id] = stores.get(n.id, 0) + 1
+    binds = {}
+    for st in fn.body:
+        if isinstance(st, ast.Assign) and len(st.targets) == 1 and isinstance(st.targets[0], ast.Name) and stores.get(st.targets[0].id) == 1 \
+                and isinstance(st.value, ast.Attribute) and isinstance(st.value.value, ast.Name):
+            binds[st.targets[0].id] = st.value
+
+    class Sub(ast.NodeTransformer):
+        def visit_Name(self, n):
+            if isinstance(n.ctx, ast.Load) and n.id in binds:
+                return ast.copy_location(copy.deepcopy(binds[n.id]), n)
+            return n
+    if binds:
+        fn = Sub().visit(fn)
+        fn.body = [st for st in fn.body if not (isinstance(st, ast.Assign) and len(st.targets) == 1 and isinstance(st.targets[0], ast.Name) and st.targets[0].id in binds)]
+    out = []
+    for k, st in enumerate(fn.body):
+        if isinstance(st, ast.Try) and len(st.handlers) == 1 and not st.finalbody and len(st.body) == 1 and isinstance(st.body[0], ast.Assign) \
+                and isinstance(st.body[0].value, ast.Subscript) and E.self_loc(st.body[0].value.value) is not None \
+                and st.handlers[0].type is not None and ast.unparse(st.handlers[0].type) == 'KeyError' \
+                and st.handlers[0].body and isinstance(st.handlers[0].body[-1], (ast.Return, ast.Raise)):
+            sub = st.body[0].value
+            test = ast.Compare(left=copy.deepcopy(sub.slice), ops=[ast.In()], comparators=[copy.deepcopy(sub.value)])
+            hit = ast.If(test=test, body=[st.body[0]] + list(st.orelse) + list(fn.body[k + 1:]), orelse=[])
+            ast.copy_location(hit, st)
+            ast.fix_missing_locations(hit)
+            out.append(hit)
+            out.extend(st.handlers[0].body)
+            break
+        out.append(st)
+    fn.body = out
+    return fn
+
+
 def find_memo(ix, uv):
     """Look for the memo in the visit method resolved on the update visitor.
     Returns dict(cache=attr, key=expr text, visit=FuncInfo, hit_stores_results=bool, renew=[(FuncInfo, node)]) or None."""
@@ -122,7 +165,8 @@ def find_memo(ix, uv):
         return None
     nodep = v.node.args.args[1].arg
     memo = None
-    for st in v.node.body:
+    vnode = _normalise_visit(v.node)
+    for st in vnode.body:
         hit = _hit_test(st.test) if isinstance(st, ast.If) else None
         if hit is not None:
             cache = E.self_loc(hit[0])
@@ -145,7 +189,7 @@ def find_memo(ix, uv):
     # the miss path delegates and stores under the same key
     stored = False
     delegated = False
-    for n in ast.walk(v.node):
+    for n in ast.walk(vnode):
         if isinstance(n, ast.Subscript) and isinstance(n.ctx, ast.Store) and E.self_loc(n.value) == memo['cache'] \
                 and ast.unparse(n.slice).replace(nodep, 'node') == memo['key']:
             stored = True
